@@ -15,27 +15,28 @@ template<int R> struct Src : state<> { template<class E,class F> void on_exit(E 
 template<int R> struct Tgt : state<> { template<class E,class F> void on_entry(E const&,F&){ g_log += "n" + std::to_string(R) + " "; maybe_throw(PH_ENTRY, R); } };
 template<int R> struct G { template<class E,class F,class S,class T> bool operator()(E const&,F&,S&,T&){ g_log += "g" + std::to_string(R) + " "; maybe_throw(PH_GUARD, R); return true; } };
 template<int R> struct A { template<class E,class F,class S,class T> void operator()(E const&,F&,S&,T&){ g_log += "a" + std::to_string(R) + " "; maybe_throw(PH_ACTION, R); } };
-template<class Policy> struct M_ : state_machine_def<M_<Policy>> {
+template<class Policy, bool WG = true> struct M_ : state_machine_def<M_<Policy, WG>> {       // WG = false: the rows carry no guard (a_row_ kind)
   typedef Policy active_state_switch_policy;
   typedef Src<0> S0; typedef Tgt<0> T0; typedef Src<1> S1; typedef Tgt<1> T1;
   typedef mpl::vector<S0,S1> initial_state;
   struct transition_table : mpl::vector<
-    Row<S0, e, T0, A<0>, G<0>>, Row<S1, e, T1, A<1>, G<1>>,
+    Row<S0, e, T0, A<0>, typename std::conditional<WG, G<0>, none>::type>, Row<S1, e, T1, A<1>, typename std::conditional<WG, G<1>, none>::type>,
     Row<T0, f, S0, none, none>, Row<T1, f, S1, none, none> > {};
   template<class F,class Ev> void no_transition(Ev const&,F&,int){ ++g_nt; }
   template<class F,class Ev> void exception_caught(Ev const& ev,F&,std::exception&){ ++g_caught; g_caught_right_event = is_event_e(ev); g_log += "CAUGHT "; }
 };
-template<class P> void run(const char* pn, bool before) {
-  typedef BE<M_<P>> M;
+// kind: 0 switch after entry (default), 1 before the transition (right after the guard), 2 after the source's exit, 3 after the action
+template<class P, bool WG = true> void run(const char* pn, int kind) {
+  typedef BE<M_<P, WG>> M;
   const char* ph[] = {"guard","exit","action","entry"};
-  for (int region = 0; region < 2; ++region) for (int phase = 0; phase < 4; ++phase) {
+  for (int region = 0; region < 2; ++region) for (int phase = WG ? 0 : 1; phase < 4; ++phase) {
     M m; m.start();
     int s0 = cur(m,0), s1 = cur(m,1);
     g_throw_phase = phase; g_throw_region = region; g_log.clear(); g_caught = 0; g_nt = 0; g_caught_right_event = false;
     bool escaped = false; int r = -1;
     try { r = (int)m.process_event(e()); } catch (...) { escaped = true; }
     g_throw_phase = -1;
-    std::string id = std::string(pn) + ".r" + std::to_string(region) + "." + ph[phase];
+    std::string id = std::string(pn) + (WG ? "" : ".no-guard") + ".r" + std::to_string(region) + "." + ph[phase];
     // nothing of the aborted transition after the throw; exactly one exception_caught; no no_transition; not handled
     size_t t = g_log.find("THROW "); std::string after = t == std::string::npos ? "" : g_log.substr(t + 6);
     bool ok = !escaped && g_caught == 1 && g_caught_right_event && g_nt == 0 && after == "CAUGHT " && r == 0;
@@ -43,7 +44,9 @@ template<class P> void run(const char* pn, bool before) {
     int a0 = cur(m,0), a1 = cur(m,1);
     int thrower_before = region == 0 ? s0 : s1; int thrower_after = region == 0 ? a0 : a1;
     bool moved = thrower_after != thrower_before;
-    bool ok_state = before ? (moved == (phase != PH_GUARD)) : !moved;
+    // the id is switched when the phase named by the policy has COMPLETED; a throw inside that phase leaves the previous id
+    const bool want_moved = kind == 0 ? false : kind == 1 ? (phase != PH_GUARD) : kind == 2 ? (phase == PH_ACTION || phase == PH_ENTRY) : (phase == PH_ENTRY);
+    bool ok_state = moved == want_moved;
     report(id, ok, "C12,C13", "ret=" + std::to_string(r) + " escaped=" + std::to_string(escaped) + " caught=" + std::to_string(g_caught) + " nt=" + std::to_string(g_nt) + " log=[" + g_log + "]");
     report(id + ".state", ok_state, "C12,C19", "policy=" + std::string(pn) + " thrower moved=" + std::to_string(moved));
     // the machine is not wedged: a later event is processed normally in the region that did not throw (if it completed) or from where it stands
@@ -51,7 +54,7 @@ template<class P> void run(const char* pn, bool before) {
     m.process_event(f());                       // regions that reached their target go back to the source
     bool back_home = cur(m,0) == s0 && cur(m,1) == s1;
     g_log.clear(); int r2 = (int)m.process_event(e());   // and a complete, fault-free step works again
-    bool full = g_log == "g0 x0 a0 n0 g1 x1 a1 n1 " && (r2 & 1) && cur(m,0) != s0 && cur(m,1) != s1;
+    bool full = g_log == (WG ? "g0 x0 a0 n0 g1 x1 a1 n1 " : "x0 a0 n0 x1 a1 n1 ") && (r2 & 1) && cur(m,0) != s0 && cur(m,1) != s1;
     report(id + ".usable", back_home && full && g_caught == 0, "C12", "after f home=" + std::to_string(back_home) + " second e log=[" + g_log + "] ret=" + std::to_string(r2));
   }
 }
@@ -139,8 +142,12 @@ int main(int argc, char** argv) {
   if (argc > 1) g_only = argv[1];
   run_entry_of_completion_source_throws();
   run_throw_inside_submachine();
-  run<msm::active_state_switch_after_entry>("after_entry", false);
-  run<msm::active_state_switch_before_transition>("before_transition", true);
+  run<msm::active_state_switch_after_entry>("after_entry", 0);
+  run<msm::active_state_switch_before_transition>("before_transition", 1);
+  run<msm::active_state_switch_after_exit>("after_exit", 2);
+  run<msm::active_state_switch_after_transition_action>("after_transition_action", 3);
+  run<msm::active_state_switch_after_exit, false>("after_exit", 2);
+  run<msm::active_state_switch_after_transition_action, false>("after_transition_action", 3);
   run_sub_entry_throws();
   return finish();
 }
